@@ -3,6 +3,7 @@ package pnet
 import (
 	"bytes"
 	"encoding/json"
+	"errors"
 	"fmt"
 	"go.sia.tech/core/gateway"
 	"go.sia.tech/core/types"
@@ -74,6 +75,11 @@ type C12Case struct {
 	// pool held them: by an outline without transaction bodies. From the start
 	// of such a case every announcement is an outline without bodies.
 	Fresh *FreshSpec `json:"fresh,omitempty"`
+	// CapSlack k >= 1: every node runs with WithMaxInboundPeers(number of edges
+	// that dial it + k-1) and WithMaxOutboundPeers(number of edges it dials +
+	// k-1): the limits permit every edge of the topology in whatever order the
+	// connections are made (k = 1: exactly). 0 = generous limits (16/16).
+	CapSlack int `json:"cap_slack,omitempty"`
 	// Excluded names a known finding whose shape the generator removed.
 	Excluded string `json:"excluded,omitempty"`
 	// V1Converges: the branches of the case differ by more than one block, so
@@ -176,6 +182,7 @@ func genC12(t *rapid.T) C12Case {
 		}
 		c.Edges = append(c.Edges, C12Edge{From: a, To: b, DelayMS: rapid.SampledFrom([]int{0, 50, 400}).Draw(t, "xdelay")})
 	}
+	c.CapSlack = rapid.SampledFrom([]int{0, 0, 1, 1, 2}).Draw(t, "capslack")
 	// connection order
 	for i := len(c.Edges) - 1; i > 0; i-- {
 		j := rapid.IntRange(0, i).Draw(t, "shuffle")
@@ -214,7 +221,11 @@ func pickTip(tr *kit.Tree, sel int) *kit.TNode {
 const (
 	netSyncInterval = 40 * time.Millisecond
 	netTick         = 100 * time.Millisecond
-	netStable       = 1300 * time.Millisecond // > the 1 s worker-spawn ticker of parallelSync
+	// ghostLimit: that many consecutive dials of one edge (one per tick) that
+	// succeeded at the dialer and left the edge down make a violation; the
+	// longest run seen on the unchanged tree under load is recorded as a class
+	ghostLimit = 50
+	netStable  = 1300 * time.Millisecond // > the 1 s worker-spawn ticker of parallelSync
 )
 
 func netBudget() time.Duration {
@@ -383,6 +394,21 @@ func runC12(c C12Case, cs *kit.CaseStats) error {
 	// it) that every node of the cluster has on its chain (nothing below a
 	// checkpoint can be served or reorganised), and it holds at most 9 blocks
 	// above it (its whole history then reaches the checkpoint)
+	// the edges that will be made (duplicates and self-loops dropped), for the
+	// per-node connection limits
+	inDeg, outDeg := make([]int, len(c.Nodes)), make([]int, len(c.Nodes))
+	{
+		seenE := map[[2]int]bool{}
+		for _, e := range c.Edges {
+			a, b := mod(e.From, len(c.Nodes)), mod(e.To, len(c.Nodes))
+			if a == b || seenE[[2]int{a, b}] || seenE[[2]int{b, a}] {
+				continue
+			}
+			seenE[[2]int{a, b}] = true
+			outDeg[a]++
+			inDeg[b]++
+		}
+	}
 	nodes := make([]*clusterNode, len(c.Nodes))
 	defer func() {
 		for _, n := range nodes {
@@ -427,6 +453,9 @@ func runC12(c C12Case, cs *kit.CaseStats) error {
 			}
 		}
 		opts := []syncer.Option{syncer.WithSyncInterval(netSyncInterval), syncer.WithPeerDiscoveryInterval(time.Hour), syncer.WithMaxInboundPeers(16), syncer.WithMaxOutboundPeers(16)}
+		if c.CapSlack > 0 {
+			opts = append(opts, syncer.WithMaxInboundPeers(inDeg[i]+c.CapSlack-1), syncer.WithMaxOutboundPeers(outDeg[i]+c.CapSlack-1))
+		}
 		if nd.MaxSendBlocks > 0 {
 			opts = append(opts, syncer.WithMaxSendBlocks(uint64(nd.MaxSendBlocks)))
 		}
@@ -489,6 +518,8 @@ func runC12(c C12Case, cs *kit.CaseStats) error {
 	var stall stallTracker
 	stalled := ""
 	freshDone := false
+	ghost := map[edge]int{} // consecutive successful dials that left the edge down
+	maxGhost, ghostEdge := 0, ""
 	if c.Fresh != nil {
 		for _, n := range nodes {
 			n.sn.Stripped = true
@@ -532,11 +563,29 @@ func runC12(c C12Case, cs *kit.CaseStats) error {
 		}
 		allLive, redialled := true, true
 		for _, e := range edges {
+			if edgeLive(e) {
+				ghost[e] = 0
+			}
 			if !edgeLive(e) {
 				allLive = false
 				reconnects++
 				if connect(e.a, e.b) != nil {
 					redialled = false
+				} else if ghost[e]++; ghost[e] > maxGhost {
+					maxGhost = ghost[e]
+				}
+				if ghost[e] >= ghostLimit && !hasCheckpoint && ghostEdge == "" {
+					in := 0
+					for _, p := range nodes[e.b].sn.S.Peers() {
+						if p.Inbound {
+							in++
+						}
+					}
+					lim := "16 (default of the cluster)"
+					if c.CapSlack > 0 {
+						lim = fmt.Sprint(inDeg[e.b] + c.CapSlack - 1)
+					}
+					ghostEdge = fmt.Sprintf("the connection node %d -> node %d does not stay: %d consecutive Connect calls of node %d (one per %v) returned success, yet none of them left the two nodes connected; node %d has %d inbound and %d peers in all, its MaxInboundPeers is %s, and %d edge(s) of the topology dial it", e.a, e.b, ghost[e], e.a, netTick, e.b, in, len(nodes[e.b].sn.S.Peers()), lim, inDeg[e.b])
 				}
 			}
 		}
@@ -545,6 +594,9 @@ func runC12(c C12Case, cs *kit.CaseStats) error {
 		// re-dialled successfully counts as "up" for the stall oracle (a node that
 		// keeps hanging up on its peers makes no progress either). With checkpoint
 		// nodes "no common history" is legitimate, there the edge must really be up.
+		if ghostEdge != "" {
+			break
+		}
 		stallLive := allLive || (!hasCheckpoint && redialled)
 		allSynced := true
 		for _, n := range nodes {
@@ -703,6 +755,24 @@ func runC12(c C12Case, cs *kit.CaseStats) error {
 	}
 	if stalled != "" {
 		return fmt.Errorf("stalled: %s", stalled)
+	}
+	switch {
+	case maxGhost == 0:
+	case maxGhost <= 2:
+		cs.Class("max-consecutive-dials-that-did-not-stay:1-2")
+	case maxGhost <= 9:
+		cs.Class("max-consecutive-dials-that-did-not-stay:3-9")
+	default:
+		cs.Class("max-consecutive-dials-that-did-not-stay:10+")
+	}
+	if os.Getenv("VERIF_NET_DEBUG") != "" && maxGhost > 0 {
+		fmt.Printf("GHOST %d\n", maxGhost)
+	}
+	if c.CapSlack > 0 {
+		cs.Classf("connection-limits=edges+%d", c.CapSlack-1)
+	}
+	if ghostEdge != "" {
+		return errors.New(ghostEdge)
 	}
 	if !quiescent {
 		why := "tips-moving"
